@@ -18,11 +18,11 @@ def fs(*xs):
 
 BASE = dict(
     Ids=fs("p1", "p2"), Teams=fs("t1"),
-    Names=fs("", "a", "b", "p1", "p2", "p3"), Nicks=fs("x", "y", ""), Roles=fs("r1", "r2", "r3", ""), Grades=fs("g1", "g2", ""),
+    Names=fs("", "a", "b", "p1", "p2", "p3", "p4", "p5"), Nicks=fs("x", "y", ""), Roles=fs("r1", "r2", "r3", ""), Grades=fs("g1", "g2", ""),
     BadNames=fs(), BossMode="off", TeamMode="off", ChildExtended=False, LinksViaEntity=False,
     Ops=fs("create", "update", "delete"), MaxOps=2, MaxTx=6, TxKinds=fs("update"), SysCtxs=fs(False), Vias=fs("people"),
     NamePool=fs(), IdNames=True, NickPool=fs(NIL), RolePool=fs(fs()), BossPool=fs(NIL), TeamPool=fs(NIL), SysPool=fs(False),
-    LeadPool=fs(False), GradePool=fs("g1"), LtPool=fs(fs(NIL)), FieldSets=Sub("FS_All"), VetoPool=fs(False), PrePool=fs(),
+    LeadPool=fs(False), GradePool=fs("g1"), LtPool=fs(fs(NIL)), FieldSets=Sub("FS_All"), VetoPool=fs(False), OpSysPool=fs(False), PrePool=fs(),
     CountPool=fs(), MaxRc=3, IdOrder=Sub("Order2"),
 )
 
@@ -61,6 +61,13 @@ for b, t in [("idxNull", "off"), ("conNoneNull", "off"), ("off", "idx"), ("off",
              ("idxNull", "idxCascade"), ("conNoneNull", "conCascadeNull"), ("idxNull", "conCascade")]:
     c04(b, t)
 
+# wide universes for generation only (no exhaustive run): cascades over many referrers inside busy transactions
+FIVE = dict(Ids=fs("p1", "p2", "p3", "p4", "p5"), IdOrder=Sub("Order5"))
+family("C04_wide_conCascade", BASE, **FIVE, Teams=fs("t1", "t2"), TeamMode="conCascade", BossMode="off",
+       Ops=fs("create", "update", "delete", "createTeam", "deleteTeam"), TeamPool=fs("t1", "t2"), FieldSets=Sub("FS_C04"), MaxOps=6)
+family("C04_wide_idxCascade", BASE, **FIVE, Teams=fs("t1", "t2"), TeamMode="idxCascade", BossMode="idxNull",
+       Ops=fs("create", "update", "delete", "createTeam", "deleteTeam"), TeamPool=fs("t1", "t2"), BossPool=fs(NIL, "p1"), FieldSets=Sub("FS_C04"), MaxOps=6)
+
 # ---- C05: link collections ---------------------------------------------------------------------------------
 C05 = family("C05", BASE, Teams=fs("t1", "t2"),
              Ops=fs("create", "delete", "createTeam", "deleteTeam", "addLinks", "removeLinks", "setLinks", "addLink",
@@ -72,14 +79,18 @@ family("C05_links", C05, Ops=LINKOPS, MaxOps=2)
 family("C05_rc", C05, Ops=RCOPS, MaxOps=2, MaxRc=2, CountPool=fs(0, 2))
 family("C05_links1", C05, Ops=LINKOPS, MaxOps=2, Teams=fs("t1"))
 family("C05_rc1", C05, Ops=RCOPS, MaxOps=2, MaxRc=2, CountPool=fs(0, 2), Teams=fs("t1"))
+# concentrated walks: few kinds of call, three teams, long transactions (several writes to the same link bucket in one transaction)
+family("C05_setlinks", C05, Teams=fs("t1", "t2", "t3"), Ops=fs("create", "createTeam", "setLinks", "addLinks", "removeLinks"), MaxOps=5)
 family("C05_entity", C05, LinksViaEntity=True, LtPool=fs(fs(), fs("t1"), fs("t1", "t2")),
        Ops=fs("create", "update", "delete", "createTeam", "deleteTeam", "addLinks", "removeLinks"), FieldSets=Sub("FS_C05"))
 
 # ---- C06: all features, deletes ------------------------------------------------------------------------------
 ALLOPS = fs("create", "update", "delete", "createTeam", "deleteTeam", "addLinks", "removeLinks", "setLinks", "rcInc", "rcDec")
-C06 = family("C06", BASE, Teams=fs("t1"), BossMode="idxNull", TeamMode="idxNull", Vias=fs("people", "staff"),
+C06 = family("C06", BASE, Teams=fs("t1", "t2"), BossMode="idxNull", TeamMode="idxNull", Vias=fs("people", "staff"),
              Ops=ALLOPS, NamePool=fs("a"), NickPool=fs(NIL, "x"), RolePool=fs(fs(), fs("r1", "r2")),
              BossPool=fs(NIL, "p1", "p2"), TeamPool=fs(NIL, "t1"), GradePool=fs("g1", "g2"), FieldSets=Sub("FS_C06"), MaxOps=3)
+family("C06_links", BASE, Teams=fs("t1", "t2", "t3"), Ops=fs("create", "delete", "createTeam", "deleteTeam", "addLinks", "setLinks", "rcInc"),
+       MaxOps=5, MaxRc=2)
 family("C06_cascade", C06, BossMode="conNoneNull", TeamMode="conCascadeNull")
 
 # ---- C07 / C08: faults and events ----------------------------------------------------------------------------
@@ -89,18 +100,18 @@ C07 = family("C07", BASE, Teams=fs("t1"), BossMode="idxNull", TeamMode="idx", Vi
              NamePool=fs("a", "LONG"), RolePool=fs(fs(), fs("r1"), fs("")), BossPool=fs(NIL, "p1"), TeamPool=fs(NIL, "t1"),
              Nicks=fs("x", "y", ""), VetoPool=fs(False, True), PrePool=fs("ok", "fail"), TxKinds=fs("update", "batch"),
              SysCtxs=fs(False, True), SysPool=fs(False, True), FieldSets=Sub("FS_C07"), MaxOps=3)
-C08 = family("C08", BASE, Teams=fs("t1"), TeamMode="idxCascade", Vias=fs("people", "staff"),
+C08 = family("C08", BASE, Teams=fs("t1"), TeamMode="conCascadeNull", Vias=fs("people", "staff"),
              Ops=fs("create", "update", "delete", "createTeam", "deleteTeam", "commitAction", "preCommit", "callerError"),
              NamePool=fs("a"), NickPool=fs(NIL, "x"), TeamPool=fs(NIL, "t1"), GradePool=fs("g1", "g2"), LeadPool=fs(False, True),
              PrePool=fs("ok", "fail"), TxKinds=fs("update", "batch"), FieldSets=Sub("FS_C08"), MaxOps=3)
 
 # ---- C15: parent / child -------------------------------------------------------------------------------------
-C15 = family("C15", BASE, Vias=fs("people", "staff"), NamePool=fs("a"), NickPool=fs(NIL, "x"), RolePool=fs(fs(), fs("r1")),
+C15 = family("C15", BASE, Vias=fs("people", "staff"), NamePool=fs("a", ""), NickPool=fs(NIL, "x"), RolePool=fs(fs(), fs("r1")),
              GradePool=fs("g1", "g2", ""), LeadPool=fs(False, True), FieldSets=Sub("FS_C15"), MaxOps=2)
 family("C15_ext", C15, ChildExtended=True)
 
 # ---- C16: system entities -----------------------------------------------------------------------------------
-C16 = family("C16", BASE, Teams=fs("t1"), TeamMode="idxCascade", SysCtxs=fs(False, True), SysPool=fs(False, True),
+C16 = family("C16", BASE, Teams=fs("t1"), TeamMode="conCascadeNull", SysCtxs=fs(False, True), SysPool=fs(False, True), OpSysPool=fs(False, True),
              Vias=fs("people", "staff"), Ops=fs("create", "update", "delete", "createTeam", "deleteTeam"),
              NickPool=fs(NIL, "x"), TeamPool=fs(NIL, "t1"), FieldSets=Sub("FS_C16"), MaxOps=3)
 
@@ -109,7 +120,7 @@ C16 = family("C16", BASE, Teams=fs("t1"), TeamMode="idxCascade", SysCtxs=fs(Fals
 # thorough in minutes.  Generation (simulation) always uses the richer family tables above.
 FS_ALL = Sub("FS_All")
 MC_QUICK = {
-    "C06": dict(MaxOps=1, NickPool=fs(NIL), RolePool=fs(fs(), fs("r1")), BossPool=fs(NIL, "p1"), GradePool=fs("g1"), FieldSets=FS_ALL,
+    "C06": dict(MaxOps=1, Teams=fs("t1"), TeamPool=fs(NIL, "t1"), NickPool=fs(NIL), RolePool=fs(fs(), fs("r1")), BossPool=fs(NIL, "p1"), GradePool=fs("g1"), FieldSets=FS_ALL,
                 Ops=fs("create", "update", "delete", "createTeam", "deleteTeam", "addLinks", "rcInc"), MaxRc=1),
     "C07": dict(MaxOps=2, RolePool=fs(fs(), fs("")), SysCtxs=fs(False), SysPool=fs(False), TxKinds=fs("update"), FieldSets=FS_ALL),
     "C08": dict(MaxOps=2, NickPool=fs(NIL), LeadPool=fs(False), TxKinds=fs("update"), FieldSets=FS_ALL),
@@ -119,9 +130,9 @@ MC_QUICK = {
     "C05": dict(MaxOps=2),
 }
 MC_THOROUGH = {
-    "C06": dict(MaxOps=2, NickPool=fs(NIL), RolePool=fs(fs(), fs("r1")), BossPool=fs(NIL, "p1"), GradePool=fs("g1"), FieldSets=FS_ALL,
+    "C06": dict(MaxOps=2, Teams=fs("t1"), TeamPool=fs(NIL, "t1"), NickPool=fs(NIL), RolePool=fs(fs(), fs("r1")), BossPool=fs(NIL, "p1"), GradePool=fs("g1"), FieldSets=FS_ALL,
                 Ops=fs("create", "update", "delete", "createTeam", "deleteTeam", "addLinks", "rcInc"), MaxRc=1),
-    "C06_cascade": dict(MaxOps=2, NickPool=fs(NIL), RolePool=fs(fs(), fs("r1")), BossPool=fs(NIL, "p1"), GradePool=fs("g1"), FieldSets=FS_ALL,
+    "C06_cascade": dict(MaxOps=2, Teams=fs("t1"), TeamPool=fs(NIL, "t1"), NickPool=fs(NIL), RolePool=fs(fs(), fs("r1")), BossPool=fs(NIL, "p1"), GradePool=fs("g1"), FieldSets=FS_ALL,
                         Ops=fs("create", "update", "delete", "createTeam", "deleteTeam", "addLinks", "rcInc"), MaxRc=1),
     "C07": dict(MaxOps=2, TxKinds=fs("update")),
     "C08": dict(MaxOps=2),
@@ -169,8 +180,13 @@ def mc_cfg(fam, invariants, properties=(), extra=None, view="ViewNoObs"):
     return "\n".join(out) + "\n"
 
 
+# generation-only overrides: longer transactions, so that several calls hit the same buckets inside one transaction
+GEN_EXTRA = {"C05": dict(MaxOps=4), "C05_entity": dict(MaxOps=4), "C06": dict(MaxOps=4), "C06_cascade": dict(MaxOps=4)}
+
+
 def gen_cfg(fam, depth, fail_one_in, extra=None):
     c = dict(FAMILIES[fam])
+    c.update(GEN_EXTRA.get(fam, {}))
     if extra:
         c.update(extra)
     c["Depth"] = depth
